@@ -60,11 +60,11 @@ UnsafeCallable(policy, f) ==
     \/ (policy = "denyname" /\ f.name \in DeniedNames)
 
 (* -- OPERATIONAL LAYER: transcription of jinja2/sandbox.py -------------------- *)
-(* _mutable_spec, row by row *)
+(* _mutable_spec, row by row (as of commit f0317ed, which added intersection_update) *)
 OpRows == <<
     [abc |-> "MutableSet",
-     names |-> {"add", "clear", "difference_update", "discard", "pop", "remove",
-                "symmetric_difference_update", "update"}],
+     names |-> {"add", "clear", "difference_update", "discard", "intersection_update", "pop",
+                "remove", "symmetric_difference_update", "update"}],
     [abc |-> "MutableMapping",
      names |-> {"clear", "pop", "popitem", "setdefault", "update"}],
     [abc |-> "MutableSequence",
@@ -82,19 +82,20 @@ IsInstance(kind, abc) ==
     \/ kind = "deque" /\ abc = "deque"
 
 (* modifies_known_mutable: `for typespec, unsafe in _mutable_spec: if isinstance(obj,
-   typespec): return attr in unsafe` -- the FIRST matching row decides *)
-RECURSIVE OpLookup(_, _, _)
-OpLookup(rows, kind, n) ==
+   typespec) and attr in unsafe: return True` -- ANY matching row that lists the name *)
+OpModifies(kind, n) ==
+    \E i \in 1..Len(OpRows) : IsInstance(kind, OpRows[i].abc) /\ n \in OpRows[i].names
+
+(* the lookup as shipped before f0317ed (findings F8 / F9), kept so that TLC can
+   exhibit the design defect: the set row lacked intersection_update, and
+   `if isinstance(obj, typespec): return attr in unsafe` let the FIRST matching row decide *)
+LegacyRows == [OpRows EXCEPT ![1].names = @ \ {"intersection_update"}]
+RECURSIVE LegacyLookup(_, _, _)
+LegacyLookup(rows, kind, n) ==
     IF rows = <<>> THEN FALSE
     ELSE IF IsInstance(kind, Head(rows).abc) THEN n \in Head(rows).names
-    ELSE OpLookup(Tail(rows), kind, n)
-
-OpModifies(kind, n) == OpLookup(OpRows, kind, n)
-
-(* the repaired lookup proposed in fixes/: ANY matching row that lists the name *)
-FixRows == [OpRows EXCEPT ![1].names = @ \cup {"intersection_update"}]
-FixModifies(kind, n) ==
-    \E i \in 1..Len(FixRows) : IsInstance(kind, FixRows[i].abc) /\ n \in FixRows[i].names
+    ELSE LegacyLookup(Tail(rows), kind, n)
+LegacyModifies(kind, n) == LegacyLookup(LegacyRows, kind, n)
 
 (* is_internal_attribute: an isinstance chain, then attr.startswith("__") *)
 OpInternal(kind, a) ==
@@ -107,7 +108,7 @@ OpInternal(kind, a) ==
 
 OpSafe(impl, env, kind, a) ==
     /\ ~(a.c1 = "_" \/ OpInternal(kind, a))
-    /\ ~(env = "immutable" /\ (IF impl = "fixed" THEN FixModifies(kind, a.n) ELSE OpModifies(kind, a.n)))
+    /\ ~(env = "immutable" /\ (IF impl = "legacy" THEN LegacyModifies(kind, a.n) ELSE OpModifies(kind, a.n)))
 
 (* the gate a model / a trace is checked against *)
 GateAllows(impl, env, kind, a) ==
